@@ -336,6 +336,15 @@ def wstep {ι : Type} (s : WState ι) : Event ι → Option (WState ι)
     if s.exited || !s.chan.isEmpty || s.handles ≠ 0 then none
     else some { s with innerOps := s.innerOps ++ [.flushFinal], exited := true }
 
+/-- the *rejected* variant (seeded change C10-m): a bounded queue whose `try_send` discards the entry
+when `cap` messages are queued; everything else as `wstep` -/
+def wstepLossy {ι : Type} (cap : Nat) (s : WState ι) : Event ι → Option (WState ι)
+  | .send e =>
+    if s.handles = 0 then none
+    else if s.chan.length ≥ cap then some s
+    else some { s with chan := s.chan ++ [.entry e] }
+  | ev => wstep s ev
+
 def wrun {ι : Type} (s : WState ι) : List (Event ι) → Option (WState ι)
   | [] => some s
   | ev :: evs => match wstep s ev with
